@@ -5,6 +5,7 @@
   transaction removes a property whose value sits in the store.
 -/
 import Nervus.Proofs.PublishRun
+import Nervus.Proofs.IdEq
 namespace Nervus.Storage
 open Nervus.GraphSpec (TxOp Op)
 open Nervus.StorageTriggers (storeHasN storeHasE)
@@ -118,7 +119,7 @@ theorem isTombNode_cons' (r : Run) (rs : List Run) (n : Nat) :
 
 /-- every read interface answers alike (neighbour lists as multisets, whole property maps key by key) -/
 structure Eqv (c : Cfg) (s u : Engine) : Prop where
-  idmap : s.idmap = u.idmap
+  idmap : IdEq s.idmap u.idmap
   interner : s.interner = u.interner
   vecs : s.vecs = u.vecs
   tomb : ∀ n, isTombNode s.runs n = isTombNode u.runs n
@@ -129,7 +130,7 @@ structure Eqv (c : Cfg) (s u : Engine) : Prop where
   nprops : ∀ n k, (s.nodeProps n).lookup k = (u.nodeProps n).lookup k
 
 theorem Eqv.refl (c : Cfg) (s : Engine) : Eqv c s s :=
-  ⟨rfl, rfl, rfl, fun _ => rfl, fun _ _ => PermOpt.refl _, fun _ _ => PermOpt.refl _, fun _ _ => rfl,
+  ⟨IdEq.refl _, rfl, rfl, fun _ => rfl, fun _ _ => PermOpt.refl _, fun _ _ => PermOpt.refl _, fun _ _ => rfl,
    fun _ _ => rfl, fun _ _ => rfl⟩
 
 /-- the part of the state the reads of `Eqv` look at, besides the idmap -/
@@ -144,7 +145,7 @@ theorem RFrame.trans {a b c : Engine} (h1 : RFrame a b) (h2 : RFrame b c) : RFra
   ⟨h2.runs.trans h1.runs, h2.segs.trans h1.segs, h2.store.trans h1.store, h2.root.trans h1.root⟩
 
 theorem Eqv.congr {c : Cfg} {s u s1 u1 : Engine} (h : Eqv c s u) (fs : RFrame s s1) (fu : RFrame u u1)
-    (hm : s1.idmap = u1.idmap) (hi : s1.interner = u1.interner) (hv : s1.vecs = u1.vecs) : Eqv c s1 u1 := by
+    (hm : IdEq s1.idmap u1.idmap) (hi : s1.interner = u1.interner) (hv : s1.vecs = u1.vecs) : Eqv c s1 u1 := by
   refine ⟨hm, hi, hv, ?_, ?_, ?_, ?_, ?_, ?_⟩
   · intro n; rw [fs.runs, fu.runs]; exact h.tomb n
   · intro n rel; unfold Engine.neighbors; rw [fs.runs, fs.segs, fu.runs, fu.segs]; exact h.out n rel
@@ -188,11 +189,11 @@ theorem intern_cor (s u : Engine) (lab : Option Nat) (h : s.interner = u.interne
   | none => exact ⟨h, rfl⟩
   | some l => exact gocl_cor s u l h
 
-theorem createNode_cor (E E' : Engine) (t t' : Txn) (x L : Nat) (hm : E.idmap = E'.idmap) (ht : TCor t t') :
+theorem createNode_cor (E E' : Engine) (t t' : Txn) (x L : Nat) (hm : IdEq E.idmap E'.idmap) (ht : TCor t t') :
     (t.createNode E x L = none ∧ t'.createNode E' x L = none) ∨
     ∃ r r', t.createNode E x L = some r ∧ t'.createNode E' x L = some r' ∧ TCor r.1 r'.1 := by
-  unfold Txn.createNode Engine.lookupInternal
-  rw [hm, ht.created]
+  unfold Txn.createNode Engine.lookupInternal IdMap.nextId
+  rw [hm.lookup x, hm.i2e, ht.created]
   by_cases h1 : (E'.idmap.lookup x).isSome = true
   · left; simp [h1]
   · by_cases h2 : t'.created.any (·.1 == x) = true
@@ -203,29 +204,29 @@ theorem createNode_cor (E E' : Engine) (t t' : Txn) (x L : Nat) (hm : E.idmap = 
 
 /-- one staged write on both engines -/
 theorem stepTx_cor (c : Cfg) (st su : Engine × Txn) (op : TxOp)
-    (hi : st.1.interner = su.1.interner) (hm : st.1.idmap = su.1.idmap) (hv : st.1.vecs = su.1.vecs)
+    (hi : st.1.interner = su.1.interner) (hm : IdEq st.1.idmap su.1.idmap) (hv : st.1.vecs = su.1.vecs)
     (ht : TCor st.2 su.2) :
     RFrame st.1 (stepTx c st op).1 ∧ RFrame su.1 (stepTx c su op).1 ∧
     (stepTx c st op).1.interner = (stepTx c su op).1.interner ∧
-    (stepTx c st op).1.idmap = (stepTx c su op).1.idmap ∧
+    IdEq (stepTx c st op).1.idmap (stepTx c su op).1.idmap ∧
     (stepTx c st op).1.vecs = (stepTx c su op).1.vecs ∧
     TCor (stepTx c st op).2 (stepTx c su op).2 := by
   have G : ∀ l, RFrame st.1 (st.1.getOrCreateLabel l).1 ∧ RFrame su.1 (su.1.getOrCreateLabel l).1 ∧
       (st.1.getOrCreateLabel l).1.interner = (su.1.getOrCreateLabel l).1.interner ∧
-      (st.1.getOrCreateLabel l).1.idmap = (su.1.getOrCreateLabel l).1.idmap ∧
+      IdEq (st.1.getOrCreateLabel l).1.idmap (su.1.getOrCreateLabel l).1.idmap ∧
       (st.1.getOrCreateLabel l).1.vecs = (su.1.getOrCreateLabel l).1.vecs ∧
       (st.1.getOrCreateLabel l).2 = (su.1.getOrCreateLabel l).2 := by
     intro l
     obtain ⟨f1, m1, v1⟩ := gocl_frame st.1 l
     obtain ⟨f2, m2, v2⟩ := gocl_frame su.1 l
     obtain ⟨c1, c2⟩ := gocl_cor st.1 su.1 l hi
-    exact ⟨f1, f2, c1, by rw [m1, m2, hm], by rw [v1, v2, hv], c2⟩
+    exact ⟨f1, f2, c1, by rw [m1, m2]; exact hm, by rw [v1, v2, hv], c2⟩
   cases op with
   | node x lab =>
     obtain ⟨f1, m1, v1⟩ := intern_frame st.1 lab
     obtain ⟨f2, m2, v2⟩ := intern_frame su.1 lab
     obtain ⟨c1, c2⟩ := intern_cor st.1 su.1 lab hi
-    have hm' : (internLabel st.1 lab).1.idmap = (internLabel su.1 lab).1.idmap := by rw [m1, m2, hm]
+    have hm' : IdEq (internLabel st.1 lab).1.idmap (internLabel su.1 lab).1.idmap := by rw [m1, m2]; exact hm
     have hv' : (internLabel st.1 lab).1.vecs = (internLabel su.1 lab).1.vecs := by rw [v1, v2, hv]
     simp only [stepTx]
     rw [← c2]
@@ -275,7 +276,7 @@ theorem stepTx_cor (c : Cfg) (st su : Engine × Txn) (op : TxOp)
   | vec n v =>
     show RFrame st.1 (st.2.setVector c st.1 n v).1 ∧ RFrame su.1 (su.2.setVector c su.1 n v).1 ∧
       (st.2.setVector c st.1 n v).1.interner = (su.2.setVector c su.1 n v).1.interner ∧
-      (st.2.setVector c st.1 n v).1.idmap = (su.2.setVector c su.1 n v).1.idmap ∧
+      IdEq (st.2.setVector c st.1 n v).1.idmap (su.2.setVector c su.1 n v).1.idmap ∧
       (st.2.setVector c st.1 n v).1.vecs = (su.2.setVector c su.1 n v).1.vecs ∧
       TCor (st.2.setVector c st.1 n v).2 (su.2.setVector c su.1 n v).2
     unfold Txn.setVector
@@ -287,10 +288,10 @@ theorem stepTx_cor (c : Cfg) (st su : Engine × Txn) (op : TxOp)
       exact ⟨⟨rfl, rfl, rfl, rfl⟩, ⟨rfl, rfl, rfl, rfl⟩, hi, hm, by simp [hv], ht⟩
 
 theorem fold_cor (c : Cfg) (ops : List TxOp) : ∀ (st su : Engine × Txn),
-    st.1.interner = su.1.interner → st.1.idmap = su.1.idmap → st.1.vecs = su.1.vecs → TCor st.2 su.2 →
+    st.1.interner = su.1.interner → IdEq st.1.idmap su.1.idmap → st.1.vecs = su.1.vecs → TCor st.2 su.2 →
     RFrame st.1 (ops.foldl (stepTx c) st).1 ∧ RFrame su.1 (ops.foldl (stepTx c) su).1 ∧
     (ops.foldl (stepTx c) st).1.interner = (ops.foldl (stepTx c) su).1.interner ∧
-    (ops.foldl (stepTx c) st).1.idmap = (ops.foldl (stepTx c) su).1.idmap ∧
+    IdEq (ops.foldl (stepTx c) st).1.idmap (ops.foldl (stepTx c) su).1.idmap ∧
     (ops.foldl (stepTx c) st).1.vecs = (ops.foldl (stepTx c) su).1.vecs ∧
     TCor (ops.foldl (stepTx c) st).2 (ops.foldl (stepTx c) su).2 := by
   induction ops with
@@ -322,34 +323,42 @@ theorem freeze_txid_irrelevant (m : MemTable) (a b : Nat) :
 theorem commit_eqv (c : Cfg) {s u : Engine} {t t' : Txn} (hE : Eqv c s u) (hT : TCor t t')
     (hu : u.propsRoot = 0) (hclear : removalsClear (s.commit c t).1 = true) :
     Eqv c (s.commit c t).1 (u.commit c t').1 := by
-  have hap : applyIdmap s.idmap t.created t.addL t.delL = applyIdmap u.idmap t'.created t'.addL t'.delL := by
-    rw [hE.idmap, hT.created, hT.addL, hT.delL]
+  obtain ⟨a1, a2⟩ := applyIdmap_ideq hE.idmap t.created t.addL t.delL
+  have a2' : (applyIdmap s.idmap t.created t.addL t.delL).2 = (applyIdmap u.idmap t'.created t'.addL t'.delL).2 := by
+    rw [← hT.created, ← hT.addL, ← hT.delL]; exact a2
+  have a1' : IdEq (applyIdmap s.idmap t.created t.addL t.delL).1 (applyIdmap u.idmap t'.created t'.addL t'.delL).1 := by
+    rw [← hT.created, ← hT.addL, ← hT.delL]; exact a1
   cases hq : applyIdmap u.idmap t'.created t'.addL t'.delL with
-  | mk m err =>
-  cases err with
+  | mk m' err =>
+  cases hp : applyIdmap s.idmap t.created t.addL t.delL with
+  | mk m err0 =>
+  rw [hq, hp] at a1' a2'
+  simp only at a1' a2'
+  subst a2'
+  cases err0 with
   | some e =>
-    rw [commit_err_eq c s t m e (hap.trans hq), commit_err_eq c u t' m e hq]
-    exact hE.congr ⟨rfl, rfl, rfl, rfl⟩ ⟨rfl, rfl, rfl, rfl⟩ rfl hE.interner hE.vecs
+    rw [commit_err_eq c s t m e hp, commit_err_eq c u t' m' e hq]
+    exact hE.congr ⟨rfl, rfl, rfl, rfl⟩ ⟨rfl, rfl, rfl, rfl⟩ a1' hE.interner hE.vecs
   | none =>
-    rw [commit_ok_eq c s t m (hap.trans hq)] at hclear ⊢
-    rw [commit_ok_eq c u t' m hq]
+    rw [commit_ok_eq c s t m hp] at hclear ⊢
+    rw [commit_ok_eq c u t' m' hq]
     obtain ⟨e0, e1, e2, e3, e4, e5⟩ := freeze_txid_irrelevant t.mt t.txid t'.txid
-    have hvec : (committed c s t m).vecs = (committed c u t' m).vecs := by
+    have hvec : (committed c s t m).vecs = (committed c u t' m').vecs := by
       show t.vecs.foldl _ s.vecs = t'.vecs.foldl _ u.vecs
       rw [hT.vecs, hE.vecs]
     by_cases he : (t.mt.freeze t.txid).isEmpty = true
     · have he' : (t'.mt.freeze t'.txid).isEmpty = true := by rw [← hT.mt, ← e0]; exact he
       exact hE.congr ⟨by simp [committed, he], rfl, rfl, rfl⟩ ⟨by simp [committed, he'], rfl, rfl, rfl⟩
-        rfl hE.interner hvec
+        a1' hE.interner hvec
     · have he' : ¬ (t'.mt.freeze t'.txid).isEmpty = true := by rw [← hT.mt, ← e0]; exact he
       have hr : (committed c s t m).runs = t.mt.freeze t.txid :: s.runs := by simp [committed, he]
-      have hr' : (committed c u t' m).runs = t.mt.freeze t'.txid :: u.runs := by
+      have hr' : (committed c u t' m').runs = t.mt.freeze t'.txid :: u.runs := by
         rw [hT.mt]; simp [committed, he']
       -- the removals of the new run are not in the store
       simp only [removalsClear, hr, List.all_cons, Bool.and_eq_true, List.all_eq_true, Bool.not_eq_true'] at hclear
       have hN : ∀ key ∈ (t.mt.freeze t.txid).nDel, storeHasN s key = false := fun key hk => hclear.1.1 key hk
       have hEd : ∀ key ∈ (t.mt.freeze t.txid).eDel, storeHasE s key = false := fun key hk => hclear.1.2 key hk
-      refine ⟨rfl, hE.interner, hvec, ?_, ?_, ?_, ?_, ?_, ?_⟩
+      refine ⟨a1', hE.interner, hvec, ?_, ?_, ?_, ?_, ?_, ?_⟩
       · intro n; rw [hr, hr', isTombNode_cons', isTombNode_cons', hE.tomb n, e1]
       · intro n rel
         rw [neighbors_cons s _ _ hr rfl, neighbors_cons u _ _ hr' rfl, e2]
@@ -393,7 +402,7 @@ theorem compact_eqv (c : Cfg) (hg : c.csrGuard = true) {s u : Engine} (hE : Eqv 
   simp only [freshNodeKeys, List.all_eq_true, Option.isNone_iff_eq_none] at hf
   have hid : (s.compact c).idmap = s.idmap ∧ (s.compact c).interner = s.interner ∧ (s.compact c).vecs = s.vecs := by
     unfold Engine.compact; split <;> exact ⟨rfl, rfl, rfl⟩
-  refine ⟨hid.1.trans hE.idmap, hid.2.1.trans hE.interner, hid.2.2.trans hE.vecs, ?_, ?_, ?_, ?_, ?_, ?_⟩
+  refine ⟨(IdEq.of_eq hid.1).trans hE.idmap, hid.2.1.trans hE.interner, hid.2.2.trans hE.vecs, ?_, ?_, ?_, ?_, ?_, ?_⟩
   · intro n
     rw [← hE.tomb n, isTombNode_noTombs s.runs hnt n]
     cases he : s.runs.isEmpty with
@@ -471,16 +480,16 @@ theorem Eqv.reads {c : Cfg} {s u : Engine} (h : Eqv c s u) :
     (∀ n k, (s.nodeProps n).lookup k = (u.nodeProps n).lookup k) ∧
     s.nodeLabels = u.nodeLabels ∧ s.nodeLabelNames = u.nodeLabelNames ∧ s.resolveExternal = u.resolveExternal ∧
     s.lookupInternal = u.lookupInternal ∧ s.interner = u.interner ∧ s.vecNodes = u.vecNodes := by
-  have hl : s.nodeLabels = u.nodeLabels := by funext n; unfold Engine.nodeLabels; rw [h.idmap]
+  have hl : s.nodeLabels = u.nodeLabels := by funext n; unfold Engine.nodeLabels; rw [h.idmap.i2l]
   refine ⟨?_, ?_, ?_, h.out, h.inc, h.nprop, h.eprop, h.nprops, hl, ?_, ?_, ?_, h.interner, ?_⟩
-  · unfold Engine.nodes liveNodeIds; rw [h.idmap]
+  · unfold Engine.nodes liveNodeIds; rw [h.idmap.i2e]
     apply List.filter_congr; intro n _; rw [h.tomb n]
-  · unfold Engine.nodesSnap liveNodeIds; rw [h.idmap]
+  · unfold Engine.nodesSnap liveNodeIds; rw [h.idmap.i2l]
     apply List.filter_congr; intro n _; rw [h.tomb n]
   · funext n; exact h.tomb n
   · funext n; unfold Engine.nodeLabelNames; rw [hl, h.interner]
-  · funext n; unfold Engine.resolveExternal; rw [h.idmap]
-  · funext x; unfold Engine.lookupInternal; rw [h.idmap]
+  · funext n; unfold Engine.resolveExternal; rw [h.idmap.i2e]
+  · funext x; exact h.idmap.lookup x
   · unfold Engine.vecNodes; rw [h.vecs]
     apply List.filter_congr; intro n _; rw [h.tomb n]
 
